@@ -319,136 +319,57 @@ func c21FilterNodes(p *Prog, r *Result, F *FuncNode) {
 	})
 	r.check2(why, "INC", F.Name+" / every included name contributes its node", p.pos(at), "for each include: GetNode(name) then append")
 
-	// EX1: excludes set built from filter.Excludes
-	var exSet types.Object
-	why = "no set built from NodeFilter.Excludes"
-	at = F.Decl
-	F.inspectBody(func(n ast.Node) bool {
-		rs, ok := n.(*ast.RangeStmt)
-		if !ok || !isFilterField(rs.X, "Excludes") || rs.Value == nil || len(rs.Body.List) != 1 {
-			return true
-		}
-		at = rs
-		if as, ok := rs.Body.List[0].(*ast.AssignStmt); ok && len(as.Lhs) == 1 {
-			if base, idx := indexBaseObj(F, as.Lhs[0]); base != nil && F.objOf(idx) == F.objOf(rs.Value) {
-				if _, isMap := base.Type().Underlying().(*types.Map); isMap {
-					exSet, why = base, ""
-				}
-			}
-		}
-		return true
-	})
-	if exSet != nil {
-		// no other writes to the set
-		nw := 0
-		F.inspectBody(func(n ast.Node) bool {
-			if as, ok := n.(*ast.AssignStmt); ok {
-				for _, l := range as.Lhs {
-					if base, _ := indexBaseObj(F, l); base == exSet {
-						nw++
-					}
-				}
-			}
-			if c, ok := n.(*ast.CallExpr); ok {
-				if id, ok := c.Fun.(*ast.Ident); ok && id.Name == "delete" && len(c.Args) > 0 && F.objOf(c.Args[0]) == exSet {
-					nw += 2
-				}
-			}
-			return true
-		})
-		if nw != 1 {
-			why = "the exclude set is written at more than one place"
-		}
-	}
-	r.check2(why, "EX", F.Name+" / exclude set is exactly NodeFilter.Excludes", p.pos(at), "excludes[n] = struct{}{} for each n in Excludes")
-
-	// EX2: for _, n := range listed { if _, ok := excludes[n.Name]; ok { continue }; ns = append(ns, n) }
-	why = "no loop filtering the listed nodes by the exclude set"
-	at = F.Decl
-	F.inspectBody(func(n ast.Node) bool {
-		rs, ok := n.(*ast.RangeStmt)
-		if !ok || rs.Value == nil || exSet == nil || !F.usesObj(rs.Body, exSet) {
-			return true
-		}
-		at = rs
-		elem := F.objOf(rs.Value)
-		why = ""
-		// the single `ns = append(ns, n)` of the loop, reached exactly when the membership test on n.Name says "absent"
-		var apps []*ast.AssignStmt
-		otherWrite := false
-		ast.Inspect(rs.Body, func(x ast.Node) bool {
-			as, ok := x.(*ast.AssignStmt)
-			if !ok {
-				return true
-			}
-			for i, l := range as.Lhs {
-				if F.objOf(l) != ns {
+	// EX1/EX2 in filterNodes itself, or in a helper of the package that is handed NodeFilter.Excludes (its result is then
+	// what filterNodes assigns to the result list)
+	{
+		why1, why2, at1, at2 := c21Excludes(p, F, func(e ast.Expr) bool { return isFilterField(e, "Excludes") }, ns)
+		if strings.HasPrefix(why1, "no set built") {
+			for _, c := range F.callsDeep(func(f *types.Func) bool { return f.Pkg() == F.Pkg.Types }) {
+				H := p.ByObj[F.Callee(c)]
+				if H == nil || H.Body == nil || H == F {
 					continue
 				}
-				isApp := false
-				if len(as.Rhs) == len(as.Lhs) {
-					if c, ok := unparen(as.Rhs[i]).(*ast.CallExpr); ok {
-						if id, ok := c.Fun.(*ast.Ident); ok && id.Name == "append" && len(c.Args) == 2 && F.objOf(c.Args[0]) == ns && F.objOf(c.Args[1]) == elem && !c.Ellipsis.IsValid() {
-							isApp = true
-						}
+				var src types.Object
+				for i, a := range c.Args {
+					if isFilterField(a, "Excludes") {
+						src = H.paramObj(i)
 					}
 				}
-				if isApp {
-					apps = append(apps, as)
+				if src == nil {
+					continue
+				}
+				// the helper's result: its named result, or the single variable it returns
+				var hres types.Object
+				if H.Type.Results != nil && len(H.Type.Results.List) == 1 && len(H.Type.Results.List[0].Names) == 1 {
+					hres = H.Pkg.TypesInfo.ObjectOf(H.Type.Results.List[0].Names[0])
 				} else {
-					otherWrite = true
+					inspectNoLit(H.Body, func(x ast.Node) bool {
+						if rt, ok := x.(*ast.ReturnStmt); ok && len(rt.Results) == 1 {
+							hres = H.objOf(rt.Results[0])
+						}
+						return true
+					})
 				}
-			}
-			return true
-		})
-		switch {
-		case otherWrite:
-			why = "the result list is written in the exclude loop by something other than `ns = append(ns, n)`"
-		case len(apps) != 1:
-			why = "a listed node is not appended exactly when its name is absent from the exclude set"
-		}
-		if why == "" {
-			conds, ok := pathConds(rs.Body, apps[0])
-			// membership flags: `_, ok := excludes[n.Name]` (in an if's init or as a statement of the loop)
-			member := map[types.Object]bool{}
-			ast.Inspect(rs.Body, func(x ast.Node) bool {
-				as, isAs := x.(*ast.AssignStmt)
-				if !isAs || len(as.Lhs) != 2 || len(as.Rhs) != 1 || as.Tok != token.DEFINE {
+				// … which filterNodes stores as its own result
+				stored := false
+				F.inspectBody(func(x ast.Node) bool {
+					if as, ok := x.(*ast.AssignStmt); ok && len(as.Lhs) == 1 && len(as.Rhs) == 1 && unparen(as.Rhs[0]) == ast.Expr(c) && F.objOf(as.Lhs[0]) == ns {
+						stored = true
+					}
+					if rt, ok := x.(*ast.ReturnStmt); ok && len(rt.Results) >= 1 && unparen(rt.Results[0]) == ast.Expr(c) {
+						stored = true
+					}
 					return true
+				})
+				if hres == nil || !stored {
+					continue
 				}
-				base, idx := indexBaseObj(F, as.Rhs[0])
-				sel, ok2 := unparen(idx).(*ast.SelectorExpr)
-				if base == exSet && ok2 && F.objOf(sel.X) == elem && sel.Sel.Name == "Name" {
-					if o := F.objOf(as.Lhs[1]); o != nil {
-						member[o] = true
-					}
-				}
-				return true
-			})
-			switch {
-			case !ok:
-				why = "the append of a listed node is nested in something other than if/else: the rule cannot tell when it runs"
-			case len(conds) != 1:
-				why = "the exclude test is not a single membership test `_, ok := excludes[n.Name]` on the node's own name guarding the append"
-			default:
-				e, pos := unparen(conds[0].Expr), conds[0].Pos
-				for {
-					u, isNot := e.(*ast.UnaryExpr)
-					if !isNot || u.Op != token.NOT {
-						break
-					}
-					e, pos = unparen(u.X), !pos
-				}
-				if !member[F.objOf(e)] {
-					why = "the exclude test is not `if _, ok := excludes[n.Name]; ok { continue }` on the node's own name"
-				} else if pos {
-					why = "a listed node is appended when its name IS in the exclude set, and dropped otherwise"
-				}
+				why1, why2, at1, at2 = c21Excludes(p, H, func(e ast.Expr) bool { return H.objOf(e) == src }, hres)
 			}
 		}
-		return true
-	})
-	r.check2(why, "EX", F.Name+" / a listed node is kept iff its own name is not excluded", p.pos(at), "membership test on n.Name guards the append")
+		r.check2(why1, "EX", F.Name+" / exclude set is exactly NodeFilter.Excludes", p.pos(at1), "excludes[n] = struct{}{} for each n in Excludes")
+		r.check2(why2, "EX", F.Name+" / a listed node is kept iff its own name is not excluded", p.pos(at2), "membership test on n.Name guards the append")
+	}
 }
 
 func c21Store(p *Prog, r *Result, pkg string, D, G *FuncNode) {
@@ -584,18 +505,205 @@ func c21Store(p *Prog, r *Result, pkg string, D, G *FuncNode) {
 	filt := G.paramObj(1)
 	why = "no doGetNodes call"
 	at = G.Decl
-	for _, c := range G.callsDeep(func(f *types.Func) bool { return f == D.Obj }) {
-		at = c
+	// the lookup may sit in GetNodesByPod (or a closure of it) or in a helper of the package that is handed the filter
+	type g3site struct {
+		fn   *FuncNode
+		filt types.Object
+	}
+	g3sites := []g3site{{G, filt}}
+	for _, c := range G.callsDeep(func(f *types.Func) bool { return f.Pkg() == G.Pkg.Types && f != D.Obj }) {
 		enc := p.enclosing(G.Pkg, c.Pos())
-		isField := func(e ast.Expr, f string) bool {
-			sel, ok := unparen(e).(*ast.SelectorExpr)
-			return ok && enc.objOf(sel.X) == filt && sel.Sel.Name == f
+		H := p.ByObj[enc.Callee(c)]
+		if H == nil || H.Body == nil || H == G {
+			continue
 		}
-		if len(c.Args) == 5 && isField(c.Args[2], "Labels") && isField(c.Args[3], "All") {
-			why = ""
-		} else {
-			why = fmt.Sprintf("doGetNodes is called with (%s, %s) in the labels/all positions, not (nodeFilter.Labels, nodeFilter.All)", exprStr(c.Args[2]), exprStr(c.Args[3]))
+		for i, a := range c.Args {
+			if enc.objOf(a) == filt && filt != nil && H.paramObj(i) != nil {
+				g3sites = append(g3sites, g3site{H, H.paramObj(i)})
+			}
+		}
+	}
+	for _, gs := range g3sites {
+		G, filt := gs.fn, gs.filt
+		for _, c := range G.callsDeep(func(f *types.Func) bool { return f == D.Obj }) {
+			at = c
+			enc := p.enclosing(G.Pkg, c.Pos())
+			isField := func(e ast.Expr, f string) bool {
+				sel, ok := unparen(e).(*ast.SelectorExpr)
+				return ok && enc.objOf(sel.X) == filt && sel.Sel.Name == f
+			}
+			if len(c.Args) == 5 && isField(c.Args[2], "Labels") && isField(c.Args[3], "All") {
+				why = ""
+			} else {
+				why = fmt.Sprintf("doGetNodes is called with (%s, %s) in the labels/all positions, not (nodeFilter.Labels, nodeFilter.All)", exprStr(c.Args[2]), exprStr(c.Args[3]))
+			}
 		}
 	}
 	r.check2(why, "G3", pkg+" GetNodesByPod / forwards NodeFilter.Labels and NodeFilter.All", p.pos(at), "doGetNodes(…, nodeFilter.Labels, nodeFilter.All, …)")
+}
+
+// c21Excludes: in F, (1) a set is built from exactly the names of the exclude list (isSrc recognises the list), written
+// nowhere else; (2) one loop over the listed nodes appends a node to the result `ns` exactly when its own name is absent
+// from that set. The node of an iteration may be the range value or an element expression `nodes[i]`.
+func c21Excludes(p *Prog, F *FuncNode, isSrc func(ast.Expr) bool, ns types.Object) (why1, why2 string, at1, at2 ast.Node) {
+	var exSet types.Object
+	why := "no set built from NodeFilter.Excludes"
+	var at ast.Node = F.Decl
+	F.inspectBody(func(n ast.Node) bool {
+		rs, ok := n.(*ast.RangeStmt)
+		if !ok || !isSrc(rs.X) || rs.Value == nil || len(rs.Body.List) != 1 {
+			return true
+		}
+		at = rs
+		if as, ok := rs.Body.List[0].(*ast.AssignStmt); ok && len(as.Lhs) == 1 {
+			if base, idx := indexBaseObj(F, as.Lhs[0]); base != nil && F.objOf(idx) == F.objOf(rs.Value) {
+				if _, isMap := base.Type().Underlying().(*types.Map); isMap {
+					exSet, why = base, ""
+				}
+			}
+		}
+		return true
+	})
+	if exSet != nil {
+		// no other writes to the set
+		nw := 0
+		F.inspectBody(func(n ast.Node) bool {
+			if as, ok := n.(*ast.AssignStmt); ok {
+				for _, l := range as.Lhs {
+					if base, _ := indexBaseObj(F, l); base == exSet {
+						nw++
+					}
+				}
+			}
+			if c, ok := n.(*ast.CallExpr); ok {
+				if id, ok := c.Fun.(*ast.Ident); ok && id.Name == "delete" && len(c.Args) > 0 && F.objOf(c.Args[0]) == exSet {
+					nw += 2
+				}
+			}
+			return true
+		})
+		if nw != 1 {
+			why = "the exclude set is written at more than one place"
+		}
+	}
+	why1, at1 = why, at
+
+	// EX2: for _, n := range listed { if _, ok := excludes[n.Name]; ok { continue }; ns = append(ns, n) }
+	why = "no loop filtering the listed nodes by the exclude set"
+	at = F.Decl
+	F.inspectBody(func(n ast.Node) bool {
+		// the loop over the listed nodes: `for _, n := range L`, `for i := range L` or `for i := 0; i < len(L); i++`; the
+		// node of an iteration is then written `n`, respectively `L[i]`
+		var body *ast.BlockStmt
+		elemTxt := ""
+		switch l := n.(type) {
+		case *ast.RangeStmt:
+			if exSet == nil || !F.usesObj(l.Body, exSet) {
+				return true
+			}
+			if id, ok := l.Value.(*ast.Ident); ok && id.Name != "_" {
+				body, elemTxt = l.Body, id.Name
+			} else if id, ok := l.Key.(*ast.Ident); ok && l.Value == nil && id.Name != "_" {
+				body, elemTxt = l.Body, exprStr(unparen(l.X))+"["+id.Name+"]"
+			}
+		case *ast.ForStmt:
+			if exSet == nil || !F.usesObj(l.Body, exSet) || l.Cond == nil {
+				return true
+			}
+			// i := 0; i < len(L); i++
+			init, ok1 := l.Init.(*ast.AssignStmt)
+			post, ok2 := l.Post.(*ast.IncDecStmt)
+			be, ok3 := unparen(l.Cond).(*ast.BinaryExpr)
+			if ok1 && ok2 && ok3 && len(init.Lhs) == 1 && len(init.Rhs) == 1 && post.Tok == token.INC && be.Op == token.LSS {
+				iv := F.objOf(init.Lhs[0])
+				k, isC := F.constInt(init.Rhs[0])
+				lc, isLen := unparen(be.Y).(*ast.CallExpr)
+				if iv != nil && isC && k == 0 && F.objOf(post.X) == iv && F.objOf(be.X) == iv && isLen && isBuiltinCall(F, lc, "len") && len(lc.Args) == 1 {
+					body, elemTxt = l.Body, exprStr(unparen(lc.Args[0]))+"["+iv.Name()+"]"
+				}
+			}
+		}
+		if body == nil {
+			return true
+		}
+		rsBody := body
+		isElem := func(e ast.Expr) bool { return exprStr(unparen(e)) == elemTxt }
+		at = n
+		why = ""
+		// the single `ns = append(ns, n)` of the loop, reached exactly when the membership test on n.Name says "absent"
+		var apps []*ast.AssignStmt
+		otherWrite := false
+		ast.Inspect(rsBody, func(x ast.Node) bool {
+			as, ok := x.(*ast.AssignStmt)
+			if !ok {
+				return true
+			}
+			for i, l := range as.Lhs {
+				if F.objOf(l) != ns {
+					continue
+				}
+				isApp := false
+				if len(as.Rhs) == len(as.Lhs) {
+					if c, ok := unparen(as.Rhs[i]).(*ast.CallExpr); ok {
+						if id, ok := c.Fun.(*ast.Ident); ok && id.Name == "append" && len(c.Args) == 2 && F.objOf(c.Args[0]) == ns && isElem(c.Args[1]) && !c.Ellipsis.IsValid() {
+							isApp = true
+						}
+					}
+				}
+				if isApp {
+					apps = append(apps, as)
+				} else {
+					otherWrite = true
+				}
+			}
+			return true
+		})
+		switch {
+		case otherWrite:
+			why = "the result list is written in the exclude loop by something other than `ns = append(ns, n)`"
+		case len(apps) != 1:
+			why = "a listed node is not appended exactly when its name is absent from the exclude set"
+		}
+		if why == "" {
+			conds, ok := pathConds(rsBody, apps[0])
+			// membership flags: `_, ok := excludes[n.Name]` (in an if's init or as a statement of the loop)
+			member := map[types.Object]bool{}
+			ast.Inspect(rsBody, func(x ast.Node) bool {
+				as, isAs := x.(*ast.AssignStmt)
+				if !isAs || len(as.Lhs) != 2 || len(as.Rhs) != 1 || as.Tok != token.DEFINE {
+					return true
+				}
+				base, idx := indexBaseObj(F, as.Rhs[0])
+				sel, ok2 := unparen(idx).(*ast.SelectorExpr)
+				if base == exSet && ok2 && isElem(sel.X) && sel.Sel.Name == "Name" {
+					if o := F.objOf(as.Lhs[1]); o != nil {
+						member[o] = true
+					}
+				}
+				return true
+			})
+			switch {
+			case !ok:
+				why = "the append of a listed node is nested in something other than if/else: the rule cannot tell when it runs"
+			case len(conds) != 1:
+				why = "the exclude test is not a single membership test `_, ok := excludes[n.Name]` on the node's own name guarding the append"
+			default:
+				e, pos := unparen(conds[0].Expr), conds[0].Pos
+				for {
+					u, isNot := e.(*ast.UnaryExpr)
+					if !isNot || u.Op != token.NOT {
+						break
+					}
+					e, pos = unparen(u.X), !pos
+				}
+				if !member[F.objOf(e)] {
+					why = "the exclude test is not `if _, ok := excludes[n.Name]; ok { continue }` on the node's own name"
+				} else if pos {
+					why = "a listed node is appended when its name IS in the exclude set, and dropped otherwise"
+				}
+			}
+		}
+		return true
+	})
+	return why1, why, at1, at
 }
